@@ -19,7 +19,7 @@ RULE = ('include trees (depth<=4, fan-out<=3, a file included twice) with confli
         'parse_config_files_and_bindings = files in order, then bindings, then finalize unless told not to; unknown names raise unless skip_unknown. '
         'distinct = (tree shape, cell placement pattern, #locations, #readers, entry point)')
 TIERS = {
-    'quick': {'workers': 8, 'cases': 250, 'timeout': 600},
+    'quick': {'workers': 8, 'cases': 750, 'timeout': 600},
     'thorough': {'workers': 16, 'cases': 7000, 'timeout': 3000},
 }
 REQUIRED_BUCKETS = ['tree:depth3+', 'tree:file-included-twice', 'tree:fanout2+', 'conflict:before-include', 'conflict:after-include', 'conflict:between-includes',
@@ -342,7 +342,9 @@ def _run(ctx, case, w, gin, gc):
       res = gin.parse_config_file(top, skip_unknown=skip)
     elif entry == 'files_and_bindings':
       ctx.bucket('finalize:true' if case['finalize'] else 'finalize:false')
-      res = gin.parse_config_files_and_bindings([top], ["c14f.c = 'extra-binding'"], finalize_config=case['finalize'], skip_unknown=skip)
+      second = os.path.join(w.base, 'second_file.gin')
+      open(second, 'w').write("c14f.a = 'second-file'\nc14f.c = 'second-file-c'\n")
+      res = gin.parse_config_files_and_bindings([top, second], ["c14f.c = 'extra-binding'"], finalize_config=case['finalize'], skip_unknown=skip)
     else:
       inc, imp = gin.parse_config("include '%s'\n" % top, skip_unknown=skip)
       res = inc
@@ -374,7 +376,8 @@ def _run(ctx, case, w, gin, gc):
   if entry == 'files_and_bindings':
     expected_store = dict(expected_store)
     d = dict(expected_store.get(('', 'c14.c14f'), {}))
-    d['c'] = canon('extra-binding')
+    d['a'] = canon('second-file')       # files in the order given ...
+    d['c'] = canon('extra-binding')     # ... then the extra bindings
     expected_store[('', 'c14.c14f')] = d
     ctx.check(gin.config_is_locked() == bool(case['finalize']), 'finalize-flag-ignored', 'finalize_config=%s but locked=%s' % (case['finalize'], gin.config_is_locked()))
   ctx.check(got_store == expected_store, 'store-differs-from-flattened-text',
@@ -387,7 +390,7 @@ def _run(ctx, case, w, gin, gc):
   if entry == 'parse_config_file':
     got = as_tree(res)
   elif entry == 'files_and_bindings':
-    got = as_tree(res[0]) if len(res) == 1 else None
+    got = as_tree(res[0]) if len(res) == 2 and as_tree(res[1])[0].endswith('second_file.gin') else None
   else:
     got = as_tree(res[0]) if len(res) == 1 else None
   ctx.check(got == want, 'returned-tree-differs', 'returned include/import tree %r, expected %r' % (got, want))
